@@ -125,6 +125,31 @@ class World:
             # reference fields start null (not passed)
         return kw
 
+    def touch(self):
+        def rd(o, cls, depth):
+            if depth > 4 or o is None:
+                return
+            for n, py, k, c in CT[cls]:
+                try:
+                    v = getattr(o, py) if hasattr(o, "_xobject") else getattr(o, n)
+                    if k != "leaf":
+                        rd(v, c, depth + 1)
+                    elif hasattr(v, "shape"):
+                        v[...]
+                except Exception:       # noqa: reading is judged by compare(), not here
+                    pass
+        for h in self.hs:
+            try:
+                rd(h, type(h).__name__.split("_")[0] if False else self.clsname(h), 0)
+            except Exception:           # noqa
+                pass
+
+    def clsname(self, h):
+        for name, c in family(self.vi).items():
+            if isinstance(h, c):
+                return name
+        raise KeyError("class")
+
     def resolve(self, e):
         o = self.hs[e[0] - 1]
         for p in e[1]:
@@ -140,6 +165,12 @@ class World:
     def execute(self, cmd):
         """returns '' or the exception type name"""
         op = cmd["op"]
+        # environment step the contract is indifferent to: a buffer grows (its storage is replaced) between two operations.
+        # Attributes must keep reflecting the buffer data afterwards (a cached view of the old storage would not).
+        self.nexec = getattr(self, "nexec", 0) + 1
+        if self.nexec >= 2:
+            for b in self.bufs:
+                b.grow(8 * (1 + self.nexec % 3))
         try:
             if op == "setleaf":
                 tgt = self.resolve(cmd["e"])
@@ -277,8 +308,10 @@ def replay_group(init, vi, hist, cmd, alts):
     """alts: list of (res, post) the model allows for (pre-state reached by hist, cmd).
     returns dict(status, findings=[(key, desc)], drift=[...])"""
     w = World(vi, init)
+    w.touch()
     for st in hist:
         exc = w.execute(st["cmd"])
+        w.touch()        # a user reading the attributes between operations (whatever an attribute access caches is now cached)
         if (exc != "") != (st["res"] == "refused"):
             return dict(status="abandoned-prefix", findings=[], drift=[])
     exc = w.execute(cmd)
